@@ -218,6 +218,15 @@ theorem consistent_of_renew (m t0 t1 Db now : Int) (h0 : t0 â‰¤ now) (h1 : now â
 example : (run 10 {} [.data 1, .data 5, .data 12, .timeout 13, .data 40]).ticks =
     [.renewal 32, .idle 13 32, .renewal 60] := by decide
 
+/-! ### translated condition (Tie B, semantic form) -/
+
+theorem C08_fact_renew_rule_found : Facts.gen_renew_rule_found = true := by decide
+/-- the renewal test translated from `NetConnWrapper.Read` is `renew`'s -/
+theorem C08_gen_renew_rule (m D now : Int) :
+    renew m D now = if Facts.gen_renew_rule D now m then now + 2 * m else D := by
+  unfold renew Facts.gen_renew_rule
+  by_cases h : D - now < m <;> simp [h]
+
 /-! ### fact obligations (Tie B): the code has the shape `renew` / `stepL` model -/
 
 /-- `NetConnWrapper.Read` renews when less than `readTimeoutMin` is left, to `now + readTimeoutMax` -/
